@@ -210,6 +210,25 @@ func (h *H1) AddPlugin(name, idx string, mask api.EventMask) *Plug {
 	return p
 }
 
+// AddCustomPlugin is AddPlugin for an arbitrary plugin implementation (e.g. one without a
+// Synchronize handler); nothing of what it receives is recorded by H1.
+func (h *H1) AddCustomPlugin(name, idx string, impl any) *Plug {
+	p := &Plug{h: h, Name: name, Idx: idx}
+	h.mu.Lock()
+	p.DialIdx = len(h.order)
+	h.order = append(h.order, name)
+	h.Plugs[name] = p
+	h.mu.Unlock()
+	p.Conn = h.L.Dial("p" + idx + name)
+	st, err := stub.New(impl, stub.WithPluginName(name), stub.WithPluginIdx(idx), stub.WithConnection(p.Conn),
+		stub.WithOnClose(func() { h.mu.Lock(); p.Closed++; h.mu.Unlock() }))
+	if err != nil {
+		panic(err)
+	}
+	p.Stub = st
+	return p
+}
+
 // StartTask starts the plugin's stub from a harness task.
 func (h *H1) StartTask(p *Plug) {
 	h.E.Task("start-"+p.Name, func() {
